@@ -597,9 +597,17 @@ Transitions(Spre, Spost, survivors) ==
 
 \* ---------------------------------------------------------------------------------------------
 \* Comparison of the macro-step's outputs with the expectations
-CheckOuts(S, outs, strict, req, opt) ==
+\* The statements fix *whether* these requests succeed, not which error code a refusal carries:
+\* every refusal code is the same to the observer (the exact code is conformance, Trace_Broker.tla).
+LooseErrKinds == {"CloseChannelEndReply", "ClaimChannelEndReply", "DestroyBusListenerReply", "StartBusListenerReply", "StopBusListenerReply"}
+NormE(e) == IF e[1] \in LooseErrKinds /\ e[2][3] \notin {"Ok", "SenderClaimed", "ReceiverClaimed"}
+              THEN <<e[1], <<e[2][1], e[2][2], "refused">>>> ELSE e
+
+CheckOuts(S, outs, strict, req0, opt0) ==
   LET A == SelectSeq(outs, LAMBDA o : o.m.k \in CheckedKinds /\ o.c \in strict)
-      P == [i \in 1..Len(A) |-> <<A[i].m.k, Proj(A[i])>>]
+      P == [i \in 1..Len(A) |-> NormE(<<A[i].m.k, Proj(A[i])>>)]
+      req == {NormE(e) : e \in req0}
+      opt == {NormE(e) : e \in opt0}
       reqS == {e \in req : e[2][1] \in strict}
       optS == {e \in opt : e[2][1] \in strict}
       cnt(e) == Cardinality({i \in 1..Len(P) : P[i] = e})
